@@ -66,7 +66,7 @@ APOOLS = {'E7': E7, 'E4': E4, 'E3': E3, 'E2': E2, 'EL': EL}
 S9 = [3, -2.5, False, None, '3', 'abc', D(2000, 2, 29), 0, D(2019, 11, 20, 6, 0)]   # scalars met by arrays
 SL = [3, '3', False, 'abc', 0, None]                           # literal-able scalars met by literal arrays
 
-CONCAT = SCALARS + ['a b', 'None', 200000000, '2.0', '10.00', '1e3', '007', '+3', ' 3', '3 ', 'TRUE', '1E2']
+CONCAT = SCALARS + [2.0, -3.0, 100.0, 'a b', 'None', 200000000, '2.0', '10.00', '1e3', '007', '+3', ' 3', '3 ', 'TRUE', '1E2']
 
 # ---------------------------------------------------------------------------- the conversion table
 # 'd' = the result is a date, 'n' = a number.  Transcribed cell by cell from the tests:
@@ -661,6 +661,8 @@ def text_of(v):
         return None
     if isinstance(v, int):
         return str(v)
+    if isinstance(v, float) and v.is_integer() and abs(v) < 1e15:
+        return str(int(v))       # an integer is an integer however it arrives (4/2, a float-typed cell): its digits
     if isinstance(v, str):
         return v
     return None
